@@ -351,9 +351,13 @@ func (n *ClientNetConn) SetWriteDeadline(t time.Time) error { return nil }
 type MemListener struct {
 	ID string `toml:"id"`
 
-	mu      sync.Mutex
-	addrs   []net.Addr
-	ch      chan net.Conn
+	mu    sync.Mutex
+	addrs []net.Addr
+	// pending connections: an unbounded queue (a buffered channel would cost its whole
+	// buffer for every instance ever started - the server's accept goroutine never ends)
+	qmu     sync.Mutex
+	qcond   *sync.Cond
+	queue   []net.Conn
 	started chan struct{}
 	once    sync.Once
 }
@@ -365,7 +369,8 @@ var (
 
 func init() {
 	listener.Register("verif-mem", func(options ...func(listener.Listener) error) (listener.Listener, error) {
-		l := &MemListener{ch: make(chan net.Conn, 1024), started: make(chan struct{})}
+		l := &MemListener{started: make(chan struct{})}
+		l.qcond = sync.NewCond(&l.qmu)
 		for _, o := range options {
 			o(l)
 		}
@@ -387,9 +392,27 @@ func (l *MemListener) Start(ctx context.Context) error {
 	return nil
 }
 
+func (l *MemListener) push(c net.Conn) {
+	l.qmu.Lock()
+	l.queue = append(l.queue, c)
+	l.qmu.Unlock()
+	l.qcond.Signal()
+}
+
 // Accept never returns an error: the server panics on one.
 func (l *MemListener) Accept() (net.Conn, error) {
-	return <-l.ch, nil
+	l.qmu.Lock()
+	for len(l.queue) == 0 {
+		l.qcond.Wait()
+	}
+	c := l.queue[0]
+	l.queue[0] = nil
+	l.queue = l.queue[1:]
+	if len(l.queue) == 0 {
+		l.queue = nil
+	}
+	l.qmu.Unlock()
+	return c, nil
 }
 
 // Addresses returns the AddAddress calls in order.
@@ -402,7 +425,7 @@ func (l *MemListener) Addresses() []net.Addr {
 // DialTCP hands the server a new TCP-like connection.
 func (l *MemListener) DialTCP(local, remote *net.TCPAddr) *Conn {
 	c := newConn(local, remote)
-	l.ch <- srvConn{c}
+	l.push(srvConn{c})
 	return c
 }
 
@@ -429,7 +452,7 @@ func (d *Datagram) Snapshot() [][]byte {
 func (l *MemListener) SendUDP(local, remote *net.UDPAddr, payload []byte) *Datagram {
 	d := &Datagram{}
 	buf := append([]byte(nil), payload...)
-	l.ch <- &listener.DummyUDPConn{
+	l.push(&listener.DummyUDPConn{
 		Buffer: buf,
 		Laddr:  local,
 		Raddr:  remote,
@@ -440,6 +463,6 @@ func (l *MemListener) SendUDP(local, remote *net.UDPAddr, payload []byte) *Datag
 			d.mu.Unlock()
 			return len(b), nil
 		},
-	}
+	})
 	return d
 }
